@@ -118,6 +118,37 @@ def build_props(pid, timeout):
     return rc == 0, out, n_print, closed, sorted(set(axioms))
 
 
+FORBIDDEN = re.compile(r"^\s*(Admitted|Axiom|Axioms|Parameter|Parameters|Conjecture|Admit Obligations|Unset Guard Checking|"
+                       r"Unset Positivity Checking|Unset Universe Checking|Local Unset Guard Checking)\b|\badmit\.|bypass_check|"
+                       r"-type-in-type|-impredicative-set", re.M)
+
+
+def forbidden_vernacular():
+    """Declarations that would add an axiom or switch off a kernel check, anywhere in the development (comments stripped)."""
+    hits = []
+    for v in sorted(glob.glob(os.path.join(COQ, "*", "*.v")) + [os.path.join(COQ, "_CoqProject")]):
+        try:
+            src = open(v, errors="replace").read()
+        except OSError:
+            continue
+        # strip (nested) comments
+        out, depth, i = [], 0, 0
+        while i < len(src):
+            if src.startswith("(*", i):
+                depth += 1
+                i += 2
+            elif src.startswith("*)", i) and depth > 0:
+                depth -= 1
+                i += 2
+            else:
+                if depth == 0:
+                    out.append(src[i])
+                i += 1
+        for m in FORBIDDEN.finditer("".join(out)):
+            hits.append("%s: %s" % (os.path.relpath(v, COQ), m.group(0).strip()))
+    return hits
+
+
 def failing_obligation(out):
     m = re.search(r'File "([^"]+)", line (\d+), characters [\d-]+:\s*\n\s*Error:\s*((?:.*\n?){1,12})', out)
     if m:
@@ -287,6 +318,10 @@ def check(pid, conf, tier, seed, workdir, replay, t0):
     # -- theorems
     proof_ok, coq_log, n_print, closed, axioms = build_props(pid, conf.get("coq_timeout", 1500))
     proof_ok = proof_ok and gen_ok
+    forbidden = forbidden_vernacular()
+    if forbidden:
+        proof_ok = False
+        notes.append("forbidden vernacular in the development: " + "; ".join(forbidden[:10]))
     allowed = set(conf.get("allowed_axioms", []))
     bad_axioms = [a for a in axioms if a not in allowed]
     if proof_ok and (closed + (1 if axioms else 0) < 1 or bad_axioms):
@@ -398,6 +433,7 @@ def check(pid, conf, tier, seed, workdir, replay, t0):
         "trusted_base": TRUSTED_COMMON + conf.get("trusted", []),
         "axioms_reported_by_Print_Assumptions": axioms,
         "theorems_closed_under_global_context": closed,
+        "forbidden_vernacular_found": forbidden,
         "evaluations": meta.get("evaluations", 0),
         "distinct_nontrivial": meta.get("distinct_nontrivial", 0),
         "distinct_inputs": meta.get("distinct", 0),
